@@ -189,16 +189,97 @@ pub fn escape_table(cx: &mut Ctx, refd: &serde_json::Value, rule: &str) {
     match s.method("StringParser", "parse_unicode_literal") {
         None => cx.anchor_missing(rule, "parse_unicode_literal"),
         Some(pu) => {
-            let t = sm::tsx(&pu.block);
-            let ok = t.contains("foriin1..=literal_number{matchself.next_char(){Some(c)=>matchc.to_digit(16){Some(d)=>p+=d<<((literal_number-i)*4),_=>returnErr(unicode_error),},_=>returnErr(unicode_error),}}")
-                && t.contains("matchp{55296..=57343=>Ok(std::char::REPLACEMENT_CHARACTER),_=>std::char::from_u32(p).ok_or(unicode_error),}");
+            // Interpreted, not matched: the body is evaluated by the checker's own interpreter on a designed set of
+            // digit strings (every hex digit at every position with the others 0, the surrogate / scalar-range
+            // boundaries, a non-hex character and the end of input at every position).
+            let (ok, why) = match unicode_literal_semantics(pu) {
+                Ok(n) => {
+                    cx.unit("digit strings on which parse_unicode_literal was interpreted", n);
+                    (true, String::new())
+                }
+                Err(e) => (false, e),
+            };
             if ok {
                 cx.ok(rule, "parse_unicode_literal: n hex digits, most significant first; surrogates -> U+FFFD; invalid scalar -> error");
             } else {
-                cx.fail(rule, &format!("{}/hex/accumulate", rule), &s.loc(pu), "parse_unicode_literal does not accumulate n hex digits most-significant-first with surrogates mapped to U+FFFD");
+                cx.fail(rule, &format!("{}/hex/accumulate", rule), &s.loc(pu), &format!("parse_unicode_literal does not accumulate n hex digits most-significant-first with surrogates mapped to U+FFFD: {}", why));
             }
         }
     }
+}
+
+/// Evaluate `parse_unicode_literal(n)` with the checker's interpreter; `self.next_char()` reads a scripted input.
+fn unicode_literal_semantics(pu: &syn::ImplItemFn) -> Result<usize, String> {
+    use crate::eval::{Machine, V};
+    let pname = pu.sig.inputs.iter().nth(1).and_then(|a| if let syn::FnArg::Typed(pt) = a { Some(sm::tsc(&pt.pat)) } else { None }).ok_or("no length parameter")?;
+    // every error the function constructs must be the unicode error
+    let body = sm::tsc(&pu.block);
+    let re = regex::Regex::new(r"LexicalErrorType::([A-Za-z]+)").unwrap();
+    for c in re.captures_iter(&body) {
+        if &c[1] != "UnicodeError" {
+            return Err(format!("constructs LexicalErrorType::{}", &c[1]));
+        }
+    }
+    let mut cases: Vec<(usize, Vec<Option<char>>, Option<u32>)> = vec![];
+    let hex = |v: u32, n: usize| -> Vec<Option<char>> { format!("{:0width$X}", v, width = n).chars().map(Some).collect() };
+    for n in [2usize, 4, 8] {
+        for pos in 0..n {
+            for d in 0..16u32 {
+                let v = (d as u64) << (4 * (n - 1 - pos));
+                let mut digits: Vec<Option<char>> = vec![Some('0'); n];
+                digits[pos] = std::char::from_digit(d, 16);
+                let expect = if v > 0x10FFFF { None } else if (0xD800..=0xDFFF).contains(&(v as u32)) { Some(0xFFFD) } else { Some(v as u32) };
+                cases.push((n, digits.clone(), expect));
+                // lower-case digits are hex digits too
+                let lower: Vec<Option<char>> = digits.iter().map(|c| c.map(|c| c.to_ascii_lowercase())).collect();
+                cases.push((n, lower, expect));
+            }
+            // a non-hex character / the end of input at this position
+            for bad in [Some('g'), Some('_'), Some(' '), None] {
+                let mut digits: Vec<Option<char>> = vec![Some('1'); n];
+                digits[pos] = bad;
+                digits.truncate(if bad.is_none() { pos } else { n });
+                cases.push((n, digits, None));
+            }
+        }
+        for v in [0xD7FFu32, 0xD800, 0xDABC, 0xDFFF, 0xE000, 0xFFFF, 0x10FFFF, 0x110000, 0xFFFFFFFF, 0x1F600, 0x41, 0xFF, 0x1234, 0xABCD] {
+            if (v as u64) < (1u64 << (4 * n)) {
+                let expect = if v > 0x10FFFF { None } else if (0xD800..=0xDFFF).contains(&v) { Some(0xFFFD) } else { Some(v) };
+                cases.push((n, hex(v, n), expect));
+            }
+        }
+    }
+    let total = cases.len();
+    for (n, digits, expect) in cases {
+        let input: std::cell::RefCell<std::collections::VecDeque<Option<char>>> = std::cell::RefCell::new(digits.iter().cloned().collect());
+        let consumed = std::cell::Cell::new(0usize);
+        let methods = |recv: &V, m: &str, _args: &[V]| -> Option<V> {
+            match (recv, m) {
+                (V::Enum(r), "next_char") if r == "self" => {
+                    consumed.set(consumed.get() + 1);
+                    let c = input.borrow_mut().pop_front().flatten();
+                    Some(V::Opt(c.map(|c| Box::new(V::Char(c as u32)))))
+                }
+                (V::Enum(r), "get_pos") if r == "self" => Some(V::Enum("pos".into())),
+                (V::Unit, "LexicalError::new") => Some(V::Enum("LexicalError".into())),
+                _ => None,
+            }
+        };
+        let mut mach = Machine::new(&methods);
+        mach.set(&pname, V::Int(n as i128));
+        let got = mach.eval_fn_body(&pu.block).map_err(|e| format!("not interpretable ({})", e))?;
+        let shown: String = digits.iter().map(|c| c.unwrap_or('$')).collect();
+        match (expect, &got) {
+            (Some(cp), V::Char(c)) if *c == cp => {
+                if consumed.get() != n {
+                    return Err(format!("{} digits requested, {} characters consumed for `{}`", n, consumed.get(), shown));
+                }
+            }
+            (None, V::Enum(e)) if e.starts_with("Err(") => {}
+            (e, g) => return Err(format!("\\{}{} ({} digits) evaluates to {:?}, expected {}", if n == 2 { "x" } else if n == 4 { "u" } else { "U" }, shown, n, g, e.map_or("a unicode error".to_string(), |c| format!("U+{:04X}", c)))),
+        }
+    }
+    Ok(total)
 }
 
 fn string_kinds(cx: &mut Ctx, refd: &serde_json::Value) {
@@ -629,7 +710,7 @@ fn value_conversions(cx: &mut Ctx) {
     ];
     // radix_run pushes every digit it takes: through take_number (`Some(c) => push(c)`) or with the digit test in place
     let via_helper = t.contains("matchself.take_number(radix){Some(c)=>{value_text.push(c);},");
-    let in_place = t.contains("ifLexer::<T>::is_digit_of_radix(self.window[0],radix){value_text.push(self.next_char().unwrap())");
+    let in_place = t.contains("ifLexer::is_digit_of_radix(self.window[0],radix){value_text.push(self.next_char().unwrap())");
     if via_helper || in_place {
         cx.ok(rule, "radix_run pushes every digit it takes");
     } else {
@@ -650,7 +731,7 @@ fn value_conversions(cx: &mut Ctx) {
         cx.fail(rule, &format!("{}/rewrite", rule), &lx.rel, "the literal text is rewritten in a way other than lower-casing the exponent marker");
     }
     match lr::lexer_method(&lx, "take_number") {
-        Some(m) if ["{lettake_char=Lexer::<T>::is_digit_of_radix(self.window[0],radix);take_char.then(||self.next_char().unwrap())}", "{(Lexer::<T>::is_digit_of_radix(self.window[0],radix)).then(||self.next_char().unwrap())}", "{Lexer::<T>::is_digit_of_radix(self.window[0],radix).then(||self.next_char().unwrap())}"].contains(&sm::tsc(&m.block).as_str()) => cx.ok(rule, "take_number consumes window[0] iff it is a digit of the radix"),
+        Some(m) if ["{lettake_char=Lexer::is_digit_of_radix(self.window[0],radix);take_char.then(||self.next_char().unwrap())}", "{(Lexer::is_digit_of_radix(self.window[0],radix)).then(||self.next_char().unwrap())}", "{Lexer::is_digit_of_radix(self.window[0],radix).then(||self.next_char().unwrap())}"].contains(&sm::tsc(&m.block).as_str()) => cx.ok(rule, "take_number consumes window[0] iff it is a digit of the radix"),
         Some(m) => cx.fail(rule, &format!("{}/take_number", rule), &lx.loc(m), "take_number is not `is_digit_of_radix(window[0], radix).then(|| next_char().unwrap())`"),
         None if in_place => cx.ok(rule, "the digit test and the consumption sit in radix_run itself"),
         None => cx.anchor_missing(rule, "take_number"),
